@@ -1,7 +1,7 @@
 """Class-graph topologies (for C07 and C09): digraphs over up to 4 synthesised classes.
 
-A topology is a tuple of classes; class i is a tuple of edges (target, kind); every class also has a
-scalar field `v: int`. Edge kinds:
+A topology is a tuple of classes; class i is a tuple of edges (target, kind); every class also has the
+scalar fields `v: int` and `d: Decimal` (a leaf whose wire form needs conversion). Edge kinds:
   "opt"   Optional[X]        "pipe"  X | None      "list"  list[X]
   "dict"  dict[str, X]       "vt"    tuple[X, ...] "direct" X   (only where it closes no cycle)
 `to_spec(topology, root, embedding, ...)` turns a topology into a universe spec: the first occurrence
@@ -13,6 +13,8 @@ from __future__ import annotations
 import itertools
 
 CYCLE_KINDS = ["opt", "pipe", "list", "dict", "vt"]
+# edges through a *named* (non-string) alias / NewType of a container, declared after the classes
+ALIAS_KINDS = ["alist", "adict", "ntlist", "aopt"]
 ALL_KINDS = CYCLE_KINDS + ["direct"]
 EMBEDDINGS = ["self", "list", "dict", "opt", "vt"]
 CLASS_NAMES = ["A", "B", "C", "D"]
@@ -43,18 +45,39 @@ def to_spec(topology, root=0, embedding="self", flavours=None, future=False, mod
     mods = mods or [0] * n
     names = names or CLASS_NAMES[:n]
     defined = set()
+    alias_n = [0]
+
+    root_alias = {"k": "latealias", "name": "AlRoot", "mod": mods[root], "a": [None], "wrapper": "alias"}
+
+    def edge(kind, inner, owner_mod, target=None):
+        if embedding == "edgealias" and kind == "alist" and target == root:
+            # `type AlRoot = list[Root]` is the root annotation and Root (or a class below it) refers to it by name
+            return {"k": "ref", "name": "AlRoot", "mod": mods[root]}
+        if kind in ALIAS_KINDS:
+            alias_n[0] += 1
+            base = {"alist": "list", "adict": "dict", "ntlist": "list", "aopt": "opt"}[kind]
+            return {"k": "latealias", "name": f"Al{alias_n[0]}", "mod": owner_mod, "a": [wrap(base, inner)],
+                    "wrapper": "newtype" if kind == "ntlist" else "alias"}
+        return wrap(kind, inner)
 
     def cls(i):
         if i in defined:
             return {"k": "ref", "name": names[i], "mod": mods[i]}
         defined.add(i)
-        fields = [{"n": "v", "t": {"k": "scalar", "t": "int"}}]
+        fields = [{"n": "v", "t": {"k": "scalar", "t": "int"}}, {"n": "d", "t": {"k": "scalar", "t": "Decimal"}}]
         for j, (target, kind) in enumerate(topology[i]):
-            fields.append({"n": f"e{j}", "t": wrap(kind, cls(target))})
+            fields.append({"n": f"e{j}", "t": edge(kind, cls(target), mods[i], target)})
         fl = flavours[i]
         return {"k": "class", "name": names[i], "mod": mods[i], "flavour": fl, "future": future, "fields": fields}
 
-    return wrap(embedding, cls(root))
+    if embedding == "edgealias":
+        defined.add(root)          # inside the class bodies the root class is referred to, not re-defined
+        defined.discard(root)
+        c = cls(root)
+        root_alias["a"] = [wrap("list", c)]
+        return root_alias
+    c = cls(root)
+    return wrap(embedding, c)
 
 
 def reachable(topology, root):
